@@ -55,6 +55,27 @@ def tweak(world, rng):
                 e["loc"] = e["loc"] + b"/"
                 e["rec"] = e["rec"] + b"/"
                 e["dest"] = kind + "+slash"
+    for e in ([] if has_dup else ents):
+        # recorded Paths with '.' and '..' components behind a directory that does not exist (other tools may write
+        # them): os.makedirs creates the missing directory and the path then designates a file that may well exist
+        if e.get("dest") not in (None, "file", "link-file", "link-dangling") or world["opts"].get("overwrite") or rng.random() > (0.5 if e.get("dest") else 0.15) \
+                or not e["loc"].startswith(b"/") or e["loc"].endswith(b"/"):
+            continue
+        ip = e["tdir"] + b"/info/" + e["name"] + b".trashinfo"
+        par, name = os.path.split(e["loc"])
+        pp, last = os.path.split(par)
+        if ip not in nodes or nodes[ip]["k"] != "f" or not last or pp in (b"", b"/") or pp + b"/gone-zz" in nodes:
+            continue
+        new = rng.choice([par + b"/gone-zz/../" + name, pp + b"/gone-zz/../" + last + b"/./" + name,
+                          par + b"/./" + name, pp + b"/gone-zz/gone-yy/../../" + last + b"/" + name])
+        rec = new if e["rec"] == e["loc"] else (new[len(e["base"].rstrip(b"/")) + 1:] if e.get("base") and new.startswith(e["base"].rstrip(b"/") + b"/") else None)
+        if rec is None:
+            continue
+        import re as _re
+        from urllib.parse import quote as _quote
+        nodes[ip] = dict(nodes[ip], data=_re.sub(rb"(?m)^Path=[^\r\n]*", lambda m_: b"Path=" + _quote(rec, "/").encode(), nodes[ip]["data"], count=1))
+        e["loc"], e["rec"] = new, rec
+        e["dest"] = (e.get("dest") or "free") + "+dots"
     if world["opts"].get("overwrite"):
         # --overwrite: what comes back may be a directory, what is in the way a dangling link, a link or a file
         for e in ents:
@@ -93,11 +114,16 @@ CFG = {"cmds": ["restore"], "oracles": ("effects", "listing", "exit"), "violatio
        "states": False, "tweak": tweak}
 LEVEL_NOTE = ("theorems: without --overwrite an existing destination of any kind (lexists) makes restoreOne fail before any "
               "call, under every oracle; a multi-index selection stops there; the command exits 1; with --overwrite a "
-              "non-directory payload replaces an existing regular file. Known findings: --overwrite onto a directory or a "
-              "symlink to a directory moves the payload *into* it; a directory payload over a non-directory fails")
+              "non-directory payload replaces an existing regular file, never when there is no payload to take its place; "
+              "restore_never_clobbers: under every oracle every rename of a restore without --overwrite is issued in a state "
+              "with nothing at its destination - also when the destination only comes into being while the parent directories "
+              "are made (string-level os.makedirs on Paths with '.'/'..' components: restore_dot_after_dotdot_refused, "
+              "restore_dotdot_through_missing_creates_dir, restore_without_rename_only_makes_dirs); a dangling link on the "
+              "way blocks the restore")
 RULE = ("seeded trash worlds where destinations pre-exist as regular file / directory / symlink to file / symlink to dir / "
         "dangling symlink for about 60% of the entries; 7 reply shapes (single, multi, ranges) x overwrite on/off x sort "
-        "modes; oracle: refused entries and everything after them stay in the trash, the destination is unchanged, exit != 0")
+        "modes; recorded Paths with a trailing slash and with '.'/'..' components behind a directory that does not exist; "
+        "oracle: refused entries and everything after them stay in the trash, the destination is unchanged, exit != 0")
 
 
 def run(tier, seed):
